@@ -51,6 +51,26 @@ def reset_process_state(overrides: dict | None = None):
         d[parts[-1]] = v
 
 
+def park_profile_config(ch) -> SimConfig:
+    """multi-worker schedule that never parks but counts the park candidates (stores into instances shared by >= 2 tasks or
+    into module-level objects) each task offers; `stats.park_candidates` then sizes the draw of a real park target"""
+    c = SimConfig(trace_root=TRACE_ROOT)
+    c.reorder = ch.bool(0.85, "reorder")
+    c.workers = ch.range(2, 4, "workers")
+    c.qlo, c.qhi = 1, ch.pick([5000, 1000], "park-qhi")
+    c.park_shared = True
+    c.park_at = 1 << 30
+    c.release = not ch.bool(0.3, "keep-all")
+    return c
+
+
+def park_config(ch, candidates: int) -> SimConfig:
+    """delay one task at one of the `candidates` shared-store boundaries found by a profiling schedule"""
+    c = park_profile_config(ch)
+    c.park_at = ch.int(max(1, candidates), "park-at-profiled")
+    return c
+
+
 def draw_sim_config(ch, *, allow_threads=True, allow_recompute=True, probes=False, light=False, force_threads=False, write_preempt=None) -> SimConfig:
     """swarm: each schedule / fault kind has a per-run enable bit"""
     c = SimConfig(trace_root=TRACE_ROOT)
@@ -63,7 +83,24 @@ def draw_sim_config(ch, *, allow_threads=True, allow_recompute=True, probes=Fals
         else:
             hi = ch.pick([5, 40, 200], "qhi")
         c.qlo, c.qhi = 1, hi
-        if write_preempt if write_preempt is not None else ch.bool(0.4, "write-preempt"):
+        if (write_preempt is None or write_preempt == "park") and ch.bool(0.7 if write_preempt == "park" else 0.2, "park"):
+            # delay ONE task at ONE store (just before or just after it) until every other task that can run has run: the
+            # schedule that exposes publish-before-complete and check-then-act on caches, one candidate store per run
+            c.qlog = False
+            c.qhi = ch.pick([5000, 1000], "park-qhi")
+            kind = ch.pick(["shared", "global", "any"], "park-kind", weights=[5, 3, 2])
+            if kind == "global":
+                # candidate stores: only those into module-level objects (memos, registries) -- few per task, visible to all
+                c.park_global = True
+                c.park_at = ch.pick(list(range(6)), "park-at-global", weights=[1.0 / (i + 2) for i in range(6)])
+            elif kind == "shared":
+                # candidate stores: into instances that at least two tasks of the graph hold (detectors, a CrystalPotential's
+                # unit and its integrator ...) or into module-level objects
+                c.park_shared = True
+                c.park_at = ch.pick(list(range(12)), "park-at-shared", weights=[1.0 / (i + 2) for i in range(12)])
+            else:
+                c.park_at = ch.int(ch.pick([48, 80, 128], "park-range"), "park-at")
+        elif write_preempt if write_preempt not in (None, "park") else ch.bool(0.4, "write-preempt"):
             # hand over at stores into shared state (attributes, caches, module globals) rather than after a number of lines:
             # budgets in write boundaries are heavy-tailed (1 .. 400), so one thread is parked at a store while another runs far
             c.qlog = False
